@@ -23,9 +23,9 @@ func checkC13(c *Ctx) {
 	c.Rule("C13-R7", "the snapshot taken when a cell is marked clean is exactly what Dirty compares with (last* = curr* and nothing else), so an unchanged cell is clean at the next Show")
 	c.Expect("C13-R7", 6)
 	c.Rule("C13-R5", "the content-changed tests of CellBuffer do not tell a nil combining list from an empty one (the stored copy is always non-nil): reflect.DeepEqual on combining lists only under a non-zero length guard")
-	c.Rule("C13-R6", "the lock flag of a cell is written only by LockCell (true) and UnlockCell (false); nothing else (invalidation, resize of surviving cells, whole-cell copies) can unlock a cell behind the application's back")
+	c.Rule("C13-R6", "the lock flag of a cell is written only by LockCell (true) and UnlockCell (false); nothing else (invalidation, whole-cell copies) can unlock a cell behind the application's back, and the cells that survive Resize carry their flag into the new array")
 	c.Expect("C13-R5", 1)
-	c.Expect("C13-R6", 1)
+	c.Expect("C13-R6", 2)
 	c.Expect("C13-R1", 8)
 	c.Expect("C13-R2", 5)
 	c.Expect("C13-R3", 1)
@@ -67,11 +67,16 @@ func checkC13(c *Ctx) {
 	{
 		ws := map[string]string{}
 		whole := ""
+		copies := map[string]*ssa.Store{}
 		for _, fn := range p.modFns {
 			if fn.Pkg != p.Tcell {
 				continue
 			}
 			for _, st := range storesTo(fn, "tcell.cell", "lock") {
+				if ref, _, ok := loadedField(st.Val); ok && ref.Name == "lock" {
+					copies[fn.Name()] = st // the flag of another cell travels with its content
+					continue
+				}
 				ws[fn.Name()] = valName(st.Val)
 			}
 			eachInstr(fn, func(in ssa.Instruction) {
@@ -80,8 +85,36 @@ func checkC13(c *Ctx) {
 				}
 			})
 		}
-		ok := len(ws) == 2 && ws["LockCell"] == "true" && ws["UnlockCell"] == "false" && whole == ""
+		okCopies := true
+		for n := range copies {
+			if n != "Resize" {
+				okCopies = false
+				whole += n + " copies a lock flag between cells; "
+			}
+		}
+		ok := len(ws) == 2 && ws["LockCell"] == "true" && ws["UnlockCell"] == "false" && whole == "" && okCopies
 		c.Check(ok, "C13-R6", "cell.lock:writers", "-", fmt.Sprintf("stores to cell.lock: %v %s", ws, whole))
+		// whoever replaces the cell array while keeping the content keeps the locks: in every function that
+		// installs a new array in CellBuffer.cells and copies currMain from the old cells, the block that
+		// copies currMain also copies lock (from the same source cell)
+		for _, fn := range p.modFns {
+			if fn.Pkg != p.Tcell || len(storesTo(fn, "tcell.CellBuffer", "cells")) == 0 {
+				continue
+			}
+			for _, st := range storesTo(fn, "tcell.cell", "currMain") {
+				_, src, isCopy := loadedField(st.Val)
+				if !isCopy {
+					continue
+				}
+				carried := false
+				for _, ls := range storesTo(fn, "tcell.cell", "lock") {
+					if ref, lsrc, ok := loadedField(ls.Val); ok && ref.Name == "lock" && ls.Block() == st.Block() && sameCellAddr(lsrc, src) && sameCellAddr(fieldBase(ls.Addr), fieldBase(st.Addr)) {
+						carried = true
+					}
+				}
+				c.Check(carried, "C13-R6", fn.Name()+":lock-travels-with-content", p.pos(st.Pos()), "the cells that survive a change of the array keep their lock flag (copied next to currMain, same source and destination cell)")
+			}
+		}
 	}
 	// R4
 	lr := p.Fn("tcell:(*baseScreen).LockRegion")
@@ -405,4 +438,17 @@ func lockRegionRange(c *Ctx, p *Prog, lr *ssa.Function, rule string) {
 		}
 		c.Check(okRange && nLoops == 2, rule, "LockRegion:range", p.pos(lr.Pos()), fmt.Sprintf("%d loops, each from the origin argument to origin+extent %s", nLoops, detail))
 	
+}
+
+// fieldBase: the struct pointer a field address belongs to (nil if v is not a field address).
+func fieldBase(v ssa.Value) ssa.Value {
+	if fa, ok := v.(*ssa.FieldAddr); ok {
+		return fa.X
+	}
+	return nil
+}
+
+// sameCellAddr: both are the same SSA value (one `&cells[i]` computed once and used for several fields).
+func sameCellAddr(a, b ssa.Value) bool {
+	return a != nil && b != nil && a == b
 }
